@@ -205,6 +205,10 @@ class RungeKuttaIntegrator(TableauIntegrator, abc.ABC):
             if redo_step:
                 for _ in range(self.solver_dict.get("num_step_retries", 64)):
                     self.solver_dict['redo_count'] += 1
+                    # the rejected attempt must not loosen the test of its retry: its increment (often meaningless) went into the smoothed
+                    # solution scale and its error into the controller's memory, and steps far outside the tolerance were accepted
+                    for __rejected_attempt_key in ("system_scaling", "epsilon_last", "epsilon_last_last"):
+                        self.solver_dict.pop(__rejected_attempt_key, None)
                     try:
                         timestep, (self.dTime, self.dState) = self.step(rhs, initial_time, initial_state, constants,
                                                                              timestep if D.ar_numpy.abs(timestep) < D.ar_numpy.abs(current_timestep) else current_timestep)
